@@ -9,6 +9,7 @@ import (
 	"encoding/json"
 	"flag"
 	"fmt"
+	"math"
 	"os"
 	"os/exec"
 	"runtime"
@@ -128,7 +129,7 @@ func (in *instance) body() {
 					res = in.do(p.Key, p.Inner)
 				} else {
 					sched.MustNotBlock(+1)
-					res = c.Get(p.Key)
+					res = c.Get(cacheKey(p.Key))
 					sched.MustNotBlock(-1)
 				}
 				o.mu.Lock()
@@ -154,10 +155,19 @@ func (in *instance) body() {
 	}
 }
 
+// cacheKey: key 3 stands for a key that is not equal to itself (a NaN): a valid
+// map key; every Do with it is a first call.
+func cacheKey(k int) any {
+	if k == 3 {
+		return math.NaN()
+	}
+	return k
+}
+
 // do calls Do(key); its f calls Do(inner) on the same cache if inner != 0.
 func (in *instance) do(key, inner int) any {
 	o := in.o
-	return in.c.Do(key, func() any {
+	return in.c.Do(cacheKey(key), func() any {
 		o.mu.Lock()
 		o.FCount[key]++
 		o.Seq++
@@ -423,6 +433,9 @@ func scenarios(th bool) []scenario {
 	} {
 		scs = append(scs, scenario{Progs: ps, Bound: -1}, scenario{Progs: ps, Bound: -1, Nil: true})
 	}
+	// a key that is not equal to itself: one call, which must run f and return
+	// what it returned
+	scs = append(scs, scenario{Progs: [][]op{{{Do: true, Key: 3}}}, Bound: -1}, scenario{Progs: [][]op{{{Do: true, Key: 3}}, {{Do: true, Key: 1}}}, Bound: -1})
 	// three threads, up to two calls each: quick takes those with at most 4 calls
 	// in total, thorough all of them (up to 6 calls)
 	maxTotal := 5
